@@ -280,6 +280,12 @@ def _r10_7(run: Run, res: Resolver) -> None:
             if isinstance(n, ast.Call) and isinstance(n.func, ast.Attribute) and n.func.attr in ("append", "extend") and ast.unparse(n.func.value) == "self.errors":
                 adders.add(name)
     n_sites = 0
+    from ..pathstate import conjuncts
+
+    def facts_at(nid: int) -> set[str]:
+        # the conditions known at a node, comparisons normalised (`x is None` false == `x is not None` true)
+        return {f for t, val in branch_conditions(cfg, nid) for f in conjuncts(t, val)}
+
     for node in cfg.nodes:
         if node.ast is None or node.kind not in ("stmt",):
             continue
@@ -288,7 +294,7 @@ def _r10_7(run: Run, res: Resolver) -> None:
         for c in adds:
             n_sites += 1
             conds = branch_conditions(cfg, node.id)
-            guarded = any(val is True and ("self.schema" in ast.unparse(t) or "section_schemas is not None" in ast.unparse(t)) for t, val in conds)
+            guarded = any(val is True and ("self.schema" in ast.unparse(t) or "section_schemas is not None" in ast.unparse(t)) for t, val in conds) or "section_schemas is not None" in facts_at(node.id)
             why = "guarded by a schema-presence test"
             if not guarded and isinstance(c.func, ast.Attribute) and c.func.attr == "_validate_section":
                 # callee returns at once when its schema argument is None, and the argument is None unless section_schemas is given
@@ -301,7 +307,7 @@ def _r10_7(run: Run, res: Resolver) -> None:
                 if isinstance(arg, ast.Name):
                     # bound to None, and rebound only under `section_schemas is not None`
                     binds = [n for n in walk_no_nested(fi.node) if isinstance(n, ast.Assign) and any(isinstance(t, ast.Name) and t.id == arg.id for t in n.targets)]
-                    arg_none_by_default = bool(binds) and all((isinstance(b.value, ast.Constant) and b.value.value is None) or any(val is True and "section_schemas is not None" in ast.unparse(t) for x in cfg.node_for_stmt_containing(b) for t, val in branch_conditions(cfg, x)) for b in binds)
+                    arg_none_by_default = bool(binds) and all((isinstance(b.value, ast.Constant) and b.value.value is None) or any("section_schemas is not None" in facts_at(x) for x in cfg.node_for_stmt_containing(b)) for b in binds)
                 guarded = early and arg_none_by_default
                 why = "_validate_section returns immediately for a None schema, which is what it gets without section_schemas"
             run.instance("R10.7", mod.loc(c), f"Validator.validate: `{norm(c)}` - {why}", ok=guarded)
